@@ -14,10 +14,13 @@ MANIFEST = dict(
          'loops and the `_permissioned_tagmaps` line, custom-annotation processors, imported namespaces, route io '
          'types, route whitelist + normalize, stub import blocks); for each such site the emitted text is proved '
          'independent of that order (`gen_order_free`, `caller_loop_order_free`, `field_procs_order_free`, '
-         '`imports_order_free`, `whitelist_routes_order_free`, ...) under stated hypotheses, each hypothesis is shown '
-         'necessary by a proved pair of orders with different text (`tagmaps_order_dependent`, '
-         '`procs_order_dependent_same_type`, `procs_order_dependent_same_name`, `caller_loop_order_dependent`), and '
-         'the general fact behind them (a stable sort sees only the per-key sub-sequences: `sortBy_congr`). '
+         '`remaining_order_free`, `imports_order_free`, `whitelist_routes_order_free`, ...); the per-caller tables and the '
+         'custom-annotation processor blocks need no hypothesis about ties any more (only that an annotation is identified '
+         'by namespace and name), the forms these sites had before their repair are kept as regression models and proved '
+         'order dependent (`tagmaps_order_dependent`, `procs_order_dependent_same_type`, '
+         '`procs_order_dependent_same_name`, `caller_loop_order_dependent`), the repairs are proved to change nothing '
+         'where the old sort keys decided (`caller_loop_as_before`, `emit_procs_as_before`), and '
+         'the general fact behind all of them (a stable sort sees only the per-key sub-sequences: `sortBy_congr`). '
          'Coverage: an `ast` scan of stone/ir, ir_generator, backend.py, compiler.py and every backend extracts all '
          'unsorted / sorted iterations over set-derived values, class-level mutable state, ad-hoc import literals, '
          'iterations over by-name dicts and ambient sources (clock, pid, listdir, id, hash); `sites_covered`, '
@@ -96,6 +99,10 @@ def run(ck):
             raise RuntimeError('determinism worker failed (%s): %s' % (label, err[-800:]))
     ck.note('D15 (`_permissioned_tagmaps` printed a set) is repaired in /repo: the line is modelled by tagmapsLineSorted, the '
             'printed-set form stays as regression model (tagmaps_order_dependent) and as hand seed')
+    ck.note('the three sort-key ties of python_types (omitted caller named None; annotation types of one name in two '
+            'namespaces; two annotations of one type along an alias chain) are repaired in /repo: the models follow the new '
+            'keys (callerKey, Proc.key, remaining), the former forms stay as regression models (callerLoopStr, '
+            'emitProcsByName, procsOfUnsorted) and the three witnesses as hand seeds, judged like any other input')
     ck.note('testing part: a byte difference needs the interpreter to actually pick two different orders; sets of '
             'objects hashed by address are perturbed by junk allocation, an unrelated compile and other backend runs, '
             'not exhaustively')
